@@ -13,22 +13,24 @@ N == Len(Obs)
 ArchOf(r) == [t |-> "la", name |-> r.name, lines |-> r.lines]
 OutOf(r) == [kind |-> r.kind, out |-> r.out, msgc |-> r.msgc]
 
-J == [i \in 1..N |-> LET a == ArchOf(Obs[i])
+J == TLCEval([i \in 1..N |-> LET a == ArchOf(Obs[i])
                          cl == LaClauses(a, OutOf(Obs[i]))
                          sp == LaSpeaks(a)
                          e == LaRun(a)
                      IN [failed |-> {n \in LaClauseNames : ~cl[n]},
                          speaks |-> {n \in LaClauseNames : sp[n]},
-                         wf |-> LaWF(a), kindOf |-> LaKind(a),
-                         drift |-> ~(e.kind = Obs[i].kind /\ e.out = Obs[i].out)]]
+                         wf |-> LaWF(a), dom |-> LaIn(a), kindOf |-> LaKind(a),
+                         drift |-> ~(e.kind = Obs[i].kind /\ e.out = Obs[i].out)]])
 
 Rejected == UNION {{<<Obs[i].id, n, J[i].kindOf>> : n \in J[i].failed} : i \in 1..N}
             \cup {<<Obs[i].id, "DRIFT", "differs from Shlibs!LaRun">> : i \in {k \in 1..N : J[k].drift /\ J[k].failed = {}}}
+            \cup {<<Obs[i].id, "OUTSIDE", "dlname given more than once">> : i \in {k \in 1..N : J[k].wf /\ ~J[k].dom}}
             \cup {<<Obs[i].id, "MALFORMED", "renderer produced an ill-formed archive">> : i \in {k \in 1..N : ~J[k].wf}}
 Exercised == [n \in LaClauseNames |-> Cardinality({i \in 1..N : n \in J[i].speaks})]
+             @@ [LaInDomain |-> Cardinality({i \in 1..N : J[i].dom})]
 
 ASSUME JsonSerialize(IOEnv.VERDICT_FILE, [n |-> N, rejected |-> SetToSeq(Rejected), exercised |-> Exercised])
 
-TInit == cid = 0 /\ st = Idle /\ outcome = None
-TNext == cid = 0 /\ cid' = 1 /\ UNCHANGED <<st, outcome>>
+TInit == case = [t |-> "none"] /\ st = Idle /\ outcome = None
+TNext == UNCHANGED vars
 =============================================================================
